@@ -35,20 +35,26 @@ pub fn stamp(id: &str, rel: &str, h: u64, size: usize) -> Vec<u8> {
     s
 }
 
-/// Walk used by virtual scripts for their `read=` list: regular files at or below `base/rel`
-/// (symlinks to files are read, symlinked directories are not descended into), pruning
-/// directories named `.zinoma`. Keys are the raw bytes of the path relative to `base`.
-pub fn read_tree(base: &std::path::Path, rel: &str, out: &mut Vec<(Vec<u8>, Vec<u8>)>) {
+/// Walk used by virtual scripts for their `read=` list. An entry is `<rel>` or
+/// `<rel>:<ext>+<ext>…` (only files whose name ends with one of the extensions): regular files
+/// at or below `base/rel` (symlinks to files are read, symlinked directories are not descended
+/// into), pruning directories named `.zinoma`. Keys are the raw bytes of the path relative to
+/// `base`.
+pub fn read_tree(base: &std::path::Path, entry: &str, out: &mut Vec<(Vec<u8>, Vec<u8>)>) {
+    let (rel, exts): (&str, Vec<&str>) = match entry.split_once(':') {
+        Some((r, e)) => (r, e.split('+').filter(|x| !x.is_empty()).collect()),
+        None => (entry, vec![]),
+    };
     let (p, key) = if rel.is_empty() || rel == "." {
         (base.to_path_buf(), Vec::new())
     } else {
         (base.join(rel), rel.as_bytes().to_vec())
     };
-    walk(&p, key, out);
+    walk(&p, key, &exts, out);
     out.sort();
 }
 
-fn walk(p: &std::path::Path, key: Vec<u8>, out: &mut Vec<(Vec<u8>, Vec<u8>)>) {
+fn walk(p: &std::path::Path, key: Vec<u8>, exts: &[&str], out: &mut Vec<(Vec<u8>, Vec<u8>)>) {
     use std::os::unix::ffi::OsStrExt;
     let md = match std::fs::symlink_metadata(p) {
         Ok(m) => m,
@@ -69,9 +75,15 @@ fn walk(p: &std::path::Path, key: Vec<u8>, out: &mut Vec<(Vec<u8>, Vec<u8>)>) {
                 k.push(b'/');
             }
             k.extend_from_slice(n.as_bytes());
-            walk(&p.join(&n), k, out);
+            walk(&p.join(&n), k, exts, out);
         }
     } else if md.is_file() || (md.file_type().is_symlink() && std::fs::metadata(p).map(|m| m.is_file()).unwrap_or(false)) {
+        if !exts.is_empty() {
+            let name = p.file_name().map(|n| n.to_string_lossy().into_owned()).unwrap_or_default();
+            if !exts.iter().any(|e| name.ends_with(e)) {
+                return;
+            }
+        }
         if let Ok(c) = std::fs::read(p) {
             out.push((key, c));
         }
